@@ -869,7 +869,9 @@ def _lit_obligations(tier, regions):
         seen.add(key)
         params = dict(family="lit", prefix=pre, suffix=suf, stem=stem, minlen=mn, maxlen=mxl, regions=regions)
         obs.append(Ob(id="lit/%s|%s|%s|%d-%d" % (pre or "dec", stem[:6] or "-", suf or "-", mn, mxl), kind="ch",
-                      module=__name__, func="h_lit", params=params, timeout=90 if tier == "quick" else 300, group="lit"))
+                      module=__name__, func="h_lit", params=params,
+                      # (two symbolic hex digits are enumerated by int(s, 16): 22^2 paths - give them room on a loaded machine)
+                      timeout=90 if tier == "quick" else (900 if pre.lower() == "0x" and mxl >= 2 else 300), group="lit"))
     for fid in regions:
         if fid == "C02-big-unsuffixed-literal":
             params = dict(family="lit", prefix="0x", suffix="", stem="FFFFFFFFFFFFFFF", minlen=1, maxlen=1, regions=[],
